@@ -99,6 +99,7 @@ func genC02(g *gen) {
 		g.line("  (%s, %s, %d, %d)%s", coqString(s.kind), coqString(s.fn), role, s.flag, sep)
 	}
 	g.line("]%%string.")
+	genC02KeyWrites(g)
 }
 
 // roleFlagWriters: functions of internal/crypto that set isInitiator (by
